@@ -98,13 +98,23 @@ class SetFacts:
         if isinstance(e, (ast.Set, ast.SetComp)):
             return True
         if isinstance(e, ast.Name):
-            return e.id in names
+            if e.id in names:
+                return True
+            # a name rebound from a set to something else (`xs = list(xs)`): judge by the closest preceding binding
+            return self._set_at(e, names)
         if isinstance(e, ast.NamedExpr):
             return self.is_set(e.value, names)
         if isinstance(e, ast.Call):
             fn = dotted(e.func)
             if fn in ("set", "frozenset"):
                 return True
+            if (fn or "").split(".")[-1] == "reduce" and len(e.args) >= 2 and (dotted(e.args[0]) or "").split(".")[-1] in ("and_", "or_", "sub", "xor"):
+                # functools.reduce(operator.and_, <iterable of sets>, <initial>)
+                it = e.args[1]
+                elt = it.elt if isinstance(it, (ast.GeneratorExp, ast.ListComp)) else None
+                if elt is not None and (self.is_set(elt, names) or self._is_keys_view(elt)):
+                    return True
+                return False
             if isinstance(e.func, ast.Attribute) and e.func.attr in SET_METHODS - {"copy"}:
                 return self.is_set(e.func.value, names) or self._is_keys_view(e.func.value)
             if isinstance(e.func, ast.Attribute) and e.func.attr == "copy":
@@ -122,6 +132,35 @@ class SetFacts:
         if isinstance(e, ast.IfExp):
             return self.is_set(e.body, names) and self.is_set(e.orelse, names)
         return False
+
+    def _set_at(self, use: ast.Name, names) -> bool:
+        if not hasattr(use, "lineno"):
+            return False
+        best = None
+        for n in ast.walk(self.func):
+            tgt = val = None
+            if isinstance(n, ast.Assign) and len(n.targets) == 1 and isinstance(n.targets[0], ast.Name):
+                tgt, val = n.targets[0].id, n.value
+            elif isinstance(n, ast.AnnAssign) and isinstance(n.target, ast.Name) and n.value is not None:
+                tgt, val = n.target.id, n.value
+            elif isinstance(n, ast.NamedExpr) and isinstance(n.target, ast.Name):
+                tgt, val = n.target.id, n.value
+            if tgt != use.id or val is None:
+                continue
+            if any(x is use for x in ast.walk(val)):
+                continue  # the binding whose right-hand side contains this use happens afterwards
+            pos = (n.lineno, n.col_offset)
+            if pos <= (use.lineno, use.col_offset) and (best is None or pos > best[0]):
+                best = (pos, val)
+        if best is None:
+            return False
+        if getattr(self, "_busy", False):
+            return False
+        self._busy = True
+        try:
+            return self.is_set(best[1], names)
+        finally:
+            self._busy = False
 
     def _is_keys_view(self, e) -> bool:
         return isinstance(e, ast.Call) and isinstance(e.func, ast.Attribute) and e.func.attr == "keys" and not e.args
